@@ -237,5 +237,49 @@ pub fn run(r: &mut Report) {
             }
         }
     }
+    // entries filed under the id of ANOTHER key of the same table (swapped, rotated, one key under the other's id while the owner of
+    // that id sits elsewhere): never kept, and a link signed by the stranger never counts for the id it was filed under
+    {
+        let kc = key(4);
+        let ka_json = serde_json::to_value(ka.public()).unwrap();
+        let kc_json = serde_json::to_value(kc.public()).unwrap();
+        let kc_id = serde_json::to_value(kc.key_id()).unwrap().as_str().unwrap().to_string();
+        let zeros = "0".repeat(64);
+        let tables: Vec<(&str, Vec<(&String, &serde_json::Value)>)> = vec![
+            ("swapped", vec![(&ka_id, &kb_json), (&kb_id, &ka_json)]),
+            ("rotated", vec![(&ka_id, &kb_json), (&kb_id, &kc_json), (&kc_id, &ka_json)]),
+            ("stranger under a's id, a under an unowned id", vec![(&ka_id, &kb_json), (&zeros, &ka_json)]),
+            ("stranger under a's id and under its own, a under an unowned id", vec![(&ka_id, &kb_json), (&kb_id, &kb_json), (&zeros, &ka_json)]),
+            ("stranger under a's id, a under the stranger's", vec![(&ka_id, &kb_json), (&kb_id, &ka_json), (&kc_id, &kc_json)]),
+        ];
+        // (control: the reading path used below accepts the untouched table)
+        let control: Result<in_toto::models::LayoutMetadata, _> = serde_json::from_str(&v["signed"].to_string());
+        r.case("table-entries-under-each-others-ids-control", json!({}), "the untouched layout parses with its one key", format!("{:?}", control.as_ref().map(|l| l.keys.len()).map_err(|e| e.to_string())), matches!(&control, Ok(l) if l.keys.len() == 1));
+        for (what, entries) in tables {
+            let mut v = v.clone();
+            v["signed"]["keys"] = json!({});
+            for (id, kj) in &entries { v["signed"]["keys"][id.as_str()] = (*kj).clone(); }
+            // re-sign: the owner publishes this table
+            let parsed_layout: Result<in_toto::models::LayoutMetadata, _> = serde_json::from_str(&v["signed"].to_string());
+            match parsed_layout {
+                Ok(lm) => {
+                    let bad: Vec<String> = lm.keys.iter().filter(|(id, k)| *id != k.key_id()).map(|(id, _)| format!("{:?}", id)).collect();
+                    r.case("table-entries-under-each-others-ids", json!({"table": what}), "no entry whose id differs from the key's own id", format!("bad entries: {:?}", bad), bad.is_empty());
+                    // end to end: the owner signs the layout as read; step a is authorised for a's id; only the stranger (key3) delivers a link, filed under a's id prefix
+                    let d = tmpdir();
+                    let lay = signed_layout(&lm, &[&owner]);
+                    let mut link_v = serde_json::to_value(&signed_link(&link("a", &[], &[("x", 1)]), &[&kb])).unwrap();
+                    std::fs::write(d.path().join(format!("a.{}.link", ka.key_id().prefix())), link_v.to_string()).unwrap();
+                    let res1 = no_panic(|| in_toto::verifylib::in_toto_verify(&lay, owner_keys(&[&owner]), d.path().to_str().unwrap(), None).is_ok());
+                    // .. and with the signature entry relabelled with a's id
+                    link_v["signatures"][0]["keyid"] = json!(ka_id);
+                    std::fs::write(d.path().join(format!("a.{}.link", ka.key_id().prefix())), link_v.to_string()).unwrap();
+                    let res2 = no_panic(|| in_toto::verifylib::in_toto_verify(&lay, owner_keys(&[&owner]), d.path().to_str().unwrap(), None).is_ok());
+                    r.case("stranger-never-counts-for-the-id-it-was-filed-under", json!({"table": what}), "Err, Err", format!("{:?}, {:?}", res1, res2), res1 == Ok(false) && res2 == Ok(false));
+                }
+                Err(e) => r.case("table-entries-under-each-others-ids", json!({"table": what}), "parses (entries dropped) or is rejected", format!("rejected: {}", e), true),
+            }
+        }
+    }
     let _ = KeyId::from_str;
 }
